@@ -6,12 +6,14 @@ from .decl import Decl, VARIANT, FLOAT_TYPES
 def concrete_inner(d: Decl):
     """Inner type with generic parameters instantiated (T = i32)."""
     if d.generics:
+        if d.inner == 'T':
+            return 'i32'
         return d.inner.replace('<T>', '<i32>').replace('T,', 'i32,')
     return d.inner
 
 
 def concrete_self(d: Decl):
-    return d.name + ('<i32>' if d.generics else '')
+    return d.name + ('::<i32>' if d.generics else '')
 
 
 def expected_variants(d: Decl):
